@@ -14,7 +14,9 @@ namespace vf::env {
    void (*hook)(int) = nullptr;
 
    namespace {
-      constexpr std::size_t arena_size = std::size_t(1) << 31;     // 2 GiB of address space, touched lazily
+      // 12 GiB of address space, touched lazily: in the alternating personality consecutive nodes come from opposite ends, so
+      // node addresses differ by far more than 2^32 (a comparator that narrows an address difference shows at once)
+      constexpr std::size_t arena_size = std::size_t(3) << 32;
       char* arena_lo = nullptr;
       char* arena_hi = nullptr;
       char* cur_lo = nullptr;
